@@ -4,11 +4,11 @@ import subprocess, os
 V = os.path.dirname(os.path.dirname(os.path.abspath(__file__)))
 p = os.path.join(V, "DESIGN.md")
 s = open(p).read()
-for rnd, suf in (("round5", "7,8"), ("round6", "9,10")):
+for rnd, suf, r in (("round5", "7,8", ""), ("round6", "9,10", ""), ("round7", "9,10", "7")):
     b0, b1 = "<!-- %s-table-begin -->\n" % rnd, "<!-- %s-table-end -->" % rnd
     if b0 not in s:
         continue
-    tab = subprocess.run(["python3", os.path.join(V, "lib", "mkseedtable.py"), suf], capture_output=True, text=True).stdout
+    tab = subprocess.run(["python3", os.path.join(V, "lib", "mkseedtable.py"), suf] + ([r] if r else []), capture_output=True, text=True).stdout
     a, b = s.index(b0) + len(b0), s.index(b1)
     s = s[:a] + tab + s[b:]
 open(p, "w").write(s)
